@@ -874,6 +874,11 @@ func (gen *Generator) GenerateArray(arr *SexpArray) error {
 	return nil
 }
 
+// nestingTooDeep is the error of Generate's nesting guard.
+type nestingTooDeep struct{ msg string }
+
+func (e *nestingTooDeep) Error() string { return e.msg }
+
 func (gen *Generator) Generate(expr Sexp) error {
 	if _, isComment := expr.(*SexpComment); isComment {
 		return nil
@@ -881,7 +886,7 @@ func (gen *Generator) Generate(expr Sexp) error {
 	gen.depth++
 	defer func() { gen.depth-- }()
 	if gen.depth > maxDataDepth {
-		return fmt.Errorf("expression nested more than %d levels deep (self-referential data?)", maxDataDepth)
+		return &nestingTooDeep{fmt.Sprintf("expression nested more than %d levels deep (self-referential data?)", maxDataDepth)}
 	}
 	switch e := expr.(type) {
 	case *SexpSymbol:
@@ -899,6 +904,9 @@ func (gen *Generator) Generate(expr Sexp) error {
 			}
 			if isAssign && pos > 0 && legalLeftHandSide {
 				err := gen.GenerateAssignment(e, pos)
+				if _, deep := err.(*nestingTooDeep); deep {
+					return err
+				}
 				if err != nil {
 					return fmt.Errorf("Error generating %s:\n%v",
 						expr.SexpString(nil), err)
@@ -906,6 +914,9 @@ func (gen *Generator) Generate(expr Sexp) error {
 				return nil
 			}
 			err := gen.GenerateCall(e)
+			if _, deep := err.(*nestingTooDeep); deep {
+				return err // (not wrapped: every wrap would print the whole, enormous, expression again)
+			}
 			if err != nil {
 				return fmt.Errorf("Error generating %s:\n%v",
 					expr.SexpString(nil), err)
